@@ -502,6 +502,25 @@ def callable_shape(ctx, fn):
     return fn
 
 
+def st_racyq(ctx, fr, s, acc):
+    """['x', 'racyq', kind, rel]: a query whose answer legitimately depends on the interleaving (made by one
+    thread about a path another thread is working on); it is made for its side effects on the library's
+    bookkeeping only - the answer is neither logged nor part of the accumulator (root-level threads only)"""
+    if ctx.real:
+        try:
+            v = getattr(fr.b, 'walk' if s[2] == 'walk' else s[2])(ctx.ap(s[3]))
+            if s[2] in ('read_text', 'read_binary'):
+                v.close()
+        except (OSError, RuntimeError):
+            pass
+        with ctx.lock:
+            ctx.racy_queries = getattr(ctx, 'racy_queries', 0) + 1
+    return acc
+
+
+EXT['racyq'] = st_racyq
+
+
 def unrepresentable(p):
     if '\0' in p:
         return True
